@@ -117,3 +117,15 @@ func jsonEqualNoCtx(a, b interface{}) bool {
 	}
 	return reflect.DeepEqual(strip(a), strip(b))
 }
+
+func eqStrings(a, b []string) bool {
+	if len(a) != len(b) {
+		return false
+	}
+	for i := range a {
+		if a[i] != b[i] {
+			return false
+		}
+	}
+	return true
+}
